@@ -40,13 +40,37 @@ def names_stream(ctx, res):
                     fld = cc.StringField(env=fset)
                     cur._add_field("host_name", fld)
                     got = fld.env if isinstance(fld.env, str) and fld.env else None
+                    want = expected_name(root, list(chain), fset)      # direct statement of the naming rule (independent of the model)
                     case = {"stream": "names", "root": root, "chain": list(chain), "field": fset}
                     res.case(stable(case) if depth >= 1 else None, sample=case if depth == 2 and root is True and fset is None and len(res.samples) < 3 else None,
                              kind="names:depth%d" % depth)
                     reqs.append({"cmd": "env.name", "root": root, "chain": [[k, st] for k, st in zip(KEYS, chain)], "field": fset, "key": "host_name"})
                     pend.append((case, got))
-                    # direct statement of the naming rule (independent of the model)
-                    want = expected_name(root, list(chain), fset)
+                    # the same declaration reached by the other construction routes: a dotted path through item assignment (missing
+                    # intermediate schemas are created on the way), chained attribute access, and a dotted path over existing intermediates
+                    for route in ("dotted-create", "attribute", "dotted-existing"):
+                        if route != "dotted-existing" and any(st is not None for st in chain):
+                            continue
+                        s2 = cc.Schema(env=root)
+                        fld2 = cc.StringField(env=fset)
+                        dotted = ".".join(list(KEYS[:depth]) + ["host_name"])
+                        if route == "dotted-create":
+                            s2[dotted] = fld2
+                        elif route == "attribute":
+                            cur2 = s2
+                            for k in KEYS[:depth]:
+                                cur2 = getattr(cur2, k)
+                            cur2.host_name = fld2
+                        else:
+                            cur2 = s2
+                            for k, st in zip(KEYS, chain):
+                                cur2[k] = cc.Schema(env=st)
+                                cur2 = cur2._fields[k]
+                            s2[dotted] = fld2
+                        got2 = fld2.env if isinstance(fld2.env, str) and fld2.env else None
+                        if got2 != want:
+                            res.violate("C14:name:" + route, "the variable a field is bound to depends on the route by which the schema was built",
+                                        dict(case, route=route, got=got2, want=want))
                     if got != want:
                         res.violate("C14:name", "the variable a field is bound to is not the documented one", dict(case, got=got, want=want))
     replies = ctx.model(reqs)
@@ -91,8 +115,13 @@ def precedence_stream(ctx, res, n):
     try:
         for i in range(n):
             f = F.gen_field(rng, 1)
-            if f["k"] in ("secure", "any", "list_untyped", "dict_untyped") or c05.has_custom(f):
+            if f["k"] in ("secure", "any", "list_untyped", "dict_untyped") or (c05.has_custom(f) and not f.get("custom")):
                 continue
+            if i % 10 == 3:
+                f = {"k": rng.choice(["string", "int"]), "required": False, "custom": rng.choice(["keyerr", "keyerr", "reject", "typeerr"])}
+            if f["k"] in ("string", "int") and not f.get("custom") and rng.random() < 0.25:
+                # a validator of the application's own, signalling rejection in its own way
+                f = dict(f, custom=rng.choice(["reject", "typeerr", "keyerr", "short"] if f["k"] == "string" else ["reject", "typeerr", "keyerr", "nonneg"]))
             depth = rng.randint(0, 2)
             var = "CINCO_T_%d" % i
             default = C.valid_default(rng, f, tmp, keypath)
@@ -124,7 +153,7 @@ def precedence_stream(ctx, res, n):
                         "file_value": F.enc_val(file_val), "assign_value": F.enc_val(assign_val)}
                 impl, live = H.run_impl(sk, ops, tmp, keypath, environ=environ, tape=P.tape)
                 res.case(stable([f, depth, state, env_val, F.enc_val(file_val)]) if state == "value" else None, sample=case if i < 2 else None,
-                         kind="prec:%s:%s" % (f["k"], state))
+                         kind="prec:%s%s:%s" % (f["k"], "+" + f["custom"] if f.get("custom") else "", state))
                 check_precedence(res, case, f, sk, path, impl, env_val, default, tmp, keypath)
                 vals = H.op_values(ops) + H.schema_values(sk) + ([env_val] if env_val else [])
                 if not H.schema_modelled(sk, vals):
